@@ -101,8 +101,21 @@ def main():
                     signal.alarm(0)
                     break
             except Exception as e:
-                COL.oracle_errors.append({"label": "driver", "err": repr(e),
-                                          "tb": traceback.format_exc()[-2000:], "case": case})
+                # Where was it raised?  An exception that comes out of the library itself, during a call the driver
+                # makes unguarded because it is in-domain (it returns on the unchanged tree, or this very run would be
+                # inconclusive there), means the library did not return what the property says it returns: a
+                # violation.  Anything raised in the driver's or the monitors' own code stays a machinery error.
+                tb = traceback.extract_tb(e.__traceback__)
+                inner = tb[-1].filename if tb else ""
+                lib = os.path.realpath(os.path.join(scratch, "esutil")) + os.sep
+                through = [f for f in tb if os.path.realpath(f.filename).startswith(lib)]
+                if through and (os.path.realpath(inner).startswith(lib) or "site-packages" in inner or inner.startswith("<")):
+                    where = "%s:%d in %s" % (os.path.relpath(through[-1].filename, scratch), through[-1].lineno, through[-1].name)
+                    COL.violation("%s.raised" % a.prop, "a call made by the driver raised %s: %s (%s)" % (type(e).__name__, str(e)[:140], where),
+                                  {"traceback": traceback.format_exc()[-1200:]}, key=None)
+                else:
+                    COL.oracle_errors.append({"label": "driver", "err": repr(e),
+                                              "tb": traceback.format_exc()[-2000:], "case": case})
             finally:
                 signal.alarm(0)
             ran += 1
